@@ -31,6 +31,8 @@ SizedKinds   == {"list", "tuple", "set", "frozenset", "deque"}
 (* ------------------------------ scalar rules ---------------------------------------- *)
 \* [ctor, strict origins, lax origins ("ANY" = whatever the constructor takes), same (result is the datum itself when its type is in `same`)]
 AnyT == {"ANY"}
+MoreStringKinds == {"PurePath", "PurePosixPath", "PosixPath", "PureWindowsPath", "PathLike",
+                    "IPv6Address", "IPv4Network", "IPv6Network", "IPv4Interface", "IPv6Interface"}
 ScalarRule(k) ==
   CASE k = "int"       -> [f |-> "int",       so |-> {"int"},                  lo |-> AnyT, same |-> {"int"}]
     [] k = "float"     -> [f |-> "float",     so |-> {"float", "int"},         lo |-> AnyT, same |-> {"float"}]
@@ -51,20 +53,27 @@ ScalarRule(k) ==
     [] k = "Path"      -> [f |-> "Path",      so |-> {"str"},                  lo |-> {"str"}, same |-> {}]
     [] k = "IPv4Address" -> [f |-> "IPv4Address", so |-> {"str"},              lo |-> {"str"}, same |-> {}]
     [] k = "Pattern"   -> [f |-> "re",        so |-> {"str"},                  lo |-> {"str"}, same |-> {}]
+    \* "Any and object: value is passed as is";  "LiteralString: same behavior as builtin one's of str type";  bytes-like
+    \* "exact list: bytes, bytearray, ByteString";  path-like and IP "exact lists" ("PathLike[str] loader produces Path instance")
+    [] k = "object"    -> [f |-> "id",        so |-> AnyT,                     lo |-> AnyT, same |-> AnyT]
+    [] k = "LiteralString" -> [f |-> "str",   so |-> {"str"},                  lo |-> AnyT, same |-> {"str"}]
+    [] k = "ByteString" -> [f |-> "b64",      so |-> {"str"},                  lo |-> {"str"}, same |-> {}]
+    [] k \in MoreStringKinds -> [f |-> (IF k = "PathLike" THEN "Path" ELSE k), so |-> {"str"}, lo |-> {"str"}, same |-> {}]
 ScalarKinds == {"int", "float", "str", "bool", "Decimal", "Fraction", "complex", "None", "Any", "bytes", "bytearray",
-                "date", "time", "datetime", "timedelta", "UUID", "Path", "IPv4Address", "Pattern"}
+                "date", "time", "datetime", "timedelta", "UUID", "Path", "IPv4Address", "Pattern",
+                "object", "LiteralString", "ByteString"} \cup MoreStringKinds
 \* "Loader takes any string accepted by the constructor": whether a NON-string the raw constructor happens to take
 \* (IPv4Address(1), UUID/Path given other objects) is accepted is not decided by the documentation
-StringOnlyKinds == {"UUID", "Path", "IPv4Address"}
+StringOnlyKinds == {"UUID", "Path", "IPv4Address"} \cup MoreStringKinds
 
 OriginOk(k, t, s) == LET r == ScalarRule(k)
                          o == IF s THEN r.so ELSE r.lo
                      IN  o = AnyT \/ PyTypeOf[t] \in o
 
 ScalarAcc(k, d, s) ==
-  IF ~IsAtom(d) THEN (IF k = "Any" THEN {d}
+  IF ~IsAtom(d) THEN (IF k \in {"Any", "object"} THEN {d}
                       ELSE IF ~s /\ k = "bool" THEN {[c |-> "truth", a |-> "x"]}     \* bool(container) is its truthiness
-                      ELSE IF ~s /\ k = "str" THEN {[c |-> "strof", a |-> "x"]}      \* str(container)
+                      ELSE IF ~s /\ k \in {"str", "LiteralString"} THEN {[c |-> "strof", a |-> "x"]}      \* str(container)
                       ELSE {})
   ELSE LET r == ScalarRule(k) IN
        IF ~OriginOk(k, d.a, s) THEN {}
@@ -86,6 +95,7 @@ IterOk(d, s) == \/ d.c \in SeqKinds
 IterUndef(d, s) == /\ IsAtom(d)
                    /\ \/ (~s /\ PyTypeOf[d.a] = "str" /\ d.a # "s_empty")
                       \/ PyTypeOf[d.a] \in {"bytes", "bytearray"}
+                      \/ d.a \in OtherIterableAtoms          \* e.g. an IPv4Network yields its addresses
 Items(d) == IF d.c \in SeqKinds THEN d.xs ELSE IF d.c \in MapKinds THEN d.ks ELSE <<>>
 
 \* type constructor -> concrete container built ("a minimal suitable type will be used" for abstract ones)
